@@ -1,7 +1,7 @@
 (* C19 — property theorems only.  Each is closed by `exact <lemma>` and followed by
    Print Assumptions; the check re-compiles this file on every run. *)
 From Coq Require Import List NArith ZArith Bool.
-From MW Require Import Common.Str C19.Gen_writers C19.Model C19.Proofs C19.ProofsCD C19.ProofsLife C19.ProofsCompose.
+From MW Require Import Common.Str C19.Gen_writers C19.Model C19.ModelReq C19.Proofs C19.ProofsCD C19.ProofsLife C19.ProofsCompose C19.ProofsReq.
 Import ListNotations.
 
 (* `status nfkd r m w` is do_render_status after its two qinfo calls: r / m are the `_json()` snapshots of
@@ -197,6 +197,155 @@ Theorem C19_status_after_kill :
     do_render_status nfkd (qinfo16 code_of dec_err dec_res dec_info (Q.run (h ++ [Q.Kill cn [i]]) Q.init)) c w = Failed (dec_err 2%N).
 Proof. exact status_after_kill. Qed.
 Print Assumptions C19_status_after_kill.
+
+(* ---------------------------------------------------------------------------------------------------------
+   ONE REQUEST, SEVERAL READS.  The theorems above are about `status` / `do_render_status`, i.e. the command applied to
+   snapshots taken from ONE queue state.  The real command reads the queue by up to two qinfo RPCs, and other clients of
+   the queue act between them.  `status_req` (ModelReq.v) is the command with its reads explicit, `exec r qs` runs it
+   with the queue state qs[i] answering its i-th read; the harness ties it to the real code on the reads of real
+   requests (answer AND sequence of ids asked).  Consistency ACROSS the reads of a request is NOT a theorem about nserve
+   (the code takes no atomic snapshot): it is the harness' part -- op "istatus" of vt/harness/c19_impl.py injects queue
+   events between the RPCs of one real request and the monitor judges the answer against the states the jobs had during
+   the request. *)
+
+(* the response (and the sequence of reads) of ANY request program is a function of the snapshots it actually read *)
+Theorem C19_request_function_of_reads : forall r qs qs' x tr,
+  exec r qs = Some (x, tr) -> answers qs' tr -> exec r qs' = Some (x, tr).
+Proof. exact exec_function_of_reads. Qed.
+Print Assumptions C19_request_function_of_reads.
+
+(* the status request reads the render job of that writer, then at most the fetch job, nothing else; its answer is
+   `status` on the render snapshot of the first read and the fetch snapshot of the second *)
+Theorem C19_request_reads : forall nfkd c w q1 q2 qs,
+  exists tr,
+    exec (status_req nfkd c w) (q1 :: q2 :: qs) = Some (status nfkd (q1 (render_jobid c w)) (q2 (makezip_jobid c)) w, tr) /\
+    (tr = [] \/ tr = [(render_jobid c w, q1 (render_jobid c w))] \/
+     tr = [(render_jobid c w, q1 (render_jobid c w)); (makezip_jobid c, q2 (makezip_jobid c))]).
+Proof. exact status_req_exec. Qed.
+Print Assumptions C19_request_reads.
+
+(* all reads taken from the same queue state: the request IS do_render_status on that state, so every theorem above
+   (C19_finished_only_if .. C19_reachable, C19_status_after_finish/kill) applies to it *)
+Theorem C19_request_consistent : forall nfkd c w q qs,
+  exists tr, exec (status_req nfkd c w) (q :: q :: qs) = Some (do_render_status nfkd q c w, tr).
+Proof. exact status_req_consistent. Qed.
+Print Assumptions C19_request_consistent.
+
+(* ... and already when, between the two reads, the fetch job (resp. the render job) did not change: the answer is the
+   atomic answer on the state of the first (resp. second) read *)
+Theorem C19_request_atomic_if_one_job_unchanged : forall nfkd c w q1 q2 qs,
+  (q2 (makezip_jobid c) = q1 (makezip_jobid c) ->
+   exists tr, exec (status_req nfkd c w) (q1 :: q2 :: qs) = Some (do_render_status nfkd q1 c w, tr)) /\
+  (q2 (render_jobid c w) = q1 (render_jobid c w) ->
+   exists tr, exec (status_req nfkd c w) (q1 :: q2 :: qs) = Some (do_render_status nfkd q2 c w, tr)).
+Proof. exact status_req_atomic_one_unchanged. Qed.
+Print Assumptions C19_request_atomic_if_one_job_unchanged.
+
+(* the interleaved case, arbitrary different states q1, q2: a `finished` answer was derived from exactly ONE read -- the
+   render job of that writer -- and the snapshot read had done and no (truthy) error; it is the atomic answer on q1 *)
+Theorem C19_interleaved_finished_only_if : forall nfkd c w q1 q2 qs mo tr,
+  exec (status_req nfkd c w) (q1 :: q2 :: qs) = Some (Finished mo, tr) ->
+  known w /\
+  (exists s, q1 (render_jobid c w) = Some s /\ tr = [(render_jobid c w, Some s)]) /\
+  r_done (q1 (render_jobid c w)) = true /\ truthy (r_error (q1 (render_jobid c w))) = false /\
+  do_render_status nfkd q1 c w = Finished mo.
+Proof. exact interleaved_finished_only_if. Qed.
+Print Assumptions C19_interleaved_finished_only_if.
+
+Theorem C19_interleaved_failed_iff : forall nfkd c w q1 q2 qs e,
+  (exists tr, exec (status_req nfkd c w) (q1 :: q2 :: qs) = Some (Failed e, tr)) <->
+  known w /\ e = r_error (q1 (render_jobid c w)) /\ truthy e = true.
+Proof. exact interleaved_failed_iff. Qed.
+Print Assumptions C19_interleaved_failed_iff.
+
+Theorem C19_interleaved_progress_only_if : forall nfkd c w q1 q2 qs st tr,
+  exec (status_req nfkd c w) (q1 :: q2 :: qs) = Some (Progress st, tr) ->
+  known w /\ truthy (r_error (q1 (render_jobid c w))) = false /\ r_done (q1 (render_jobid c w)) = false /\
+  st = progress_status (q1 (render_jobid c w)) (q2 (makezip_jobid c)).
+Proof. exact interleaved_progress_only_if. Qed.
+Print Assumptions C19_interleaved_progress_only_if.
+
+(* over histories: the queue ran ops0 before the first read and ANY ops1 before the second.  `finished` => the render
+   job of that writer was FinishedOK after ops0 (C19's own life-cycle model) / done without truthy error after h0 (C16
+   queue model) -- never queued, running, failed, killed, timed out or absent when it was read *)
+Theorem C19_interleaved_history_finished : forall nfkd ops0 ops1 c w mo tr qs,
+  exec (status_req nfkd c w) (qinfo_of (run ops0) :: qinfo_of (run (ops0 ++ ops1)) :: qs) = Some (Finished mo, tr) ->
+  exists j, run ops0 (render_jobid c w) = Some j /\ j_phase j = FinishedOK /\ j_done j = true.
+Proof. exact interleaved_history_finished. Qed.
+Print Assumptions C19_interleaved_history_finished.
+
+Theorem C19_interleaved_finished_only_if_queue :
+  forall (nfkd : str -> str) (code_of : str -> N) (dec_err dec_res dec_info : N -> pyval),
+  (forall n, truthy (dec_err n) = negb (n =? 0)%N) ->
+  forall h0 h1 c w mo tr qs,
+  exec (status_req nfkd c w)
+       (qinfo16 code_of dec_err dec_res dec_info (Q.run h0 Q.init) ::
+        qinfo16 code_of dec_err dec_res dec_info (Q.run (h0 ++ h1) Q.init) :: qs) = Some (Finished mo, tr) ->
+  exists j, QI.job_at (Q.run h0 Q.init) (Q.JName (code_of (render_jobid c w))) = Some j /\ Q.j_done j = true /\
+            Q.err_truthy (Q.j_err j) = false.
+Proof. exact interleaved_finished_only_if16. Qed.
+Print Assumptions C19_interleaved_finished_only_if_queue.
+
+(* a render job that is not done when it is read is answered `progress`, whatever happens to it before the next read
+   (finished with an error, killed, timed out, dropped, ..) *)
+Theorem C19_interleaved_running_progress : forall nfkd ops0 ops1 c w j qs,
+  known w -> run ops0 (render_jobid c w) = Some j -> j_done j = false ->
+  exists st tr, exec (status_req nfkd c w) (qinfo_of (run ops0) :: qinfo_of (run (ops0 ++ ops1)) :: qs) = Some (Progress st, tr).
+Proof. exact interleaved_running_progress. Qed.
+Print Assumptions C19_interleaved_running_progress.
+
+(* exactly one event addressed to ONE job (push, pull, setinfo, finish, kill, dropjobs, waitjobs of any id) between the two
+   reads: the request is linearizable -- its answer is the atomic answer on the state before or on the state after the
+   event.  (Tick / DropDead change both jobs of a collection at once; then the answer combines the render job of before
+   with the fetch job of after, which is why the monitor asks for a justifying state per job.) *)
+Theorem C19_interleaved_single_job_event_atomic : forall nfkd ops0 now id e c w qs,
+  let q1 := qinfo_of (run ops0) in
+  let q2 := qinfo_of (run (ops0 ++ [OnJob now id e])) in
+  exists tr, exec (status_req nfkd c w) (q1 :: q2 :: qs) = Some (do_render_status nfkd q1 c w, tr) \/
+             exec (status_req nfkd c w) (q1 :: q2 :: qs) = Some (do_render_status nfkd q2 c w, tr).
+Proof. exact interleaved_single_job_event_atomic. Qed.
+Print Assumptions C19_interleaved_single_job_event_atomic.
+
+(* how the error outcomes get there, C19's own life-cycle model (after ANY history in which the render job is present and
+   not done): handletimeouts past its deadline -> failed "timeout"; qkill -> failed "killed"; qfinish with a truthy
+   error -> failed with that error.  (Over the C16 queue model the kill / finish steps are C19_status_after_kill / _finish;
+   the timeout step is not proved there, see ProofsCompose.v.) *)
+Theorem C19_own_status_after_tick : forall nfkd ops now c w j,
+  known w -> run ops (render_jobid c w) = Some j -> j_done j = false -> (j_timeout j <= now)%Z ->
+  do_render_status nfkd (qinfo_of (run (ops ++ [Tick now]))) c w = Failed (VStr k_timeout).
+Proof. exact own_status_after_tick. Qed.
+Print Assumptions C19_own_status_after_tick.
+
+Theorem C19_own_status_after_kill : forall nfkd ops now c w j,
+  known w -> run ops (render_jobid c w) = Some j -> j_done j = false ->
+  do_render_status nfkd (qinfo_of (run (ops ++ [OnJob now (render_jobid c w) Kill]))) c w = Failed (VStr k_killed).
+Proof. exact own_status_after_kill. Qed.
+Print Assumptions C19_own_status_after_kill.
+
+Theorem C19_own_status_after_finish_error : forall nfkd ops now c w j res e,
+  known w -> run ops (render_jobid c w) = Some j -> j_done j = false -> truthy e = true ->
+  do_render_status nfkd (qinfo_of (run (ops ++ [OnJob now (render_jobid c w) (Finish res e)]))) c w = Failed e.
+Proof. exact own_status_after_finish_error. Qed.
+Print Assumptions C19_own_status_after_finish_error.
+
+(* the seeded scenario as a theorem: the job fails while a request is in flight -> that request says `progress`, the next
+   one `failed` with the error; `finished` is never said *)
+Theorem C19_interleaved_then_failed : forall nfkd ops0 now c w j res e qs,
+  known w -> run ops0 (render_jobid c w) = Some j -> j_done j = false -> truthy e = true ->
+  let ops1 := [OnJob now (render_jobid c w) (Finish res e)] in
+  (exists st tr, exec (status_req nfkd c w) (qinfo_of (run ops0) :: qinfo_of (run (ops0 ++ ops1)) :: qs) = Some (Progress st, tr)) /\
+  do_render_status nfkd (qinfo_of (run (ops0 ++ ops1))) c w = Failed e.
+Proof. exact interleaved_then_failed. Qed.
+Print Assumptions C19_interleaved_then_failed.
+
+(* non-vacuity: fetch done, render job pulled; the request reads the render job, THEN the worker reports "boom", then the
+   request reads the fetch job: `progress` (the fixed text); a request after that: failed "boom" *)
+Example C19_example_interleaved :
+  option_map fst (exec (status_req (fun s => s) ex_c ex_w) [qinfo_of (run ex_ops0); qinfo_of (run (ex_ops0 ++ ex_ops1))])
+    = Some (Progress fetched_status) /\
+  do_render_status (fun s => s) (qinfo_of (run (ex_ops0 ++ ex_ops1))) ex_c ex_w = Failed (VStr [98;111;111;109]%N).
+Proof. exact ex_interleaved. Qed.
+Print Assumptions C19_example_interleaved.
 
 (* Non-vacuity. (1) the NFKD hypothesis is satisfiable; (2) a concrete history: render job of "rl" pushed,
    pulled, finished with a result: finished, with the header of the Motörhead test case (nfkd tabulated). *)
